@@ -152,6 +152,11 @@ class PFlow(BaseRoutine):
         logger.debug("Max. algeb mismatch %.10g on %s", gmax, system.dae.y_name[gmax_idx])
 
         mis = max(abs(fmax), abs(gmax))
+
+        # `max` silently drops NaN depending on the argument order; a NaN mismatch must not look like zero
+        if np.isnan(fmax) or np.isnan(gmax):
+            mis = np.nan
+
         system.vars_to_models()
 
         return mis
